@@ -112,6 +112,15 @@ def call_list():
     cur["doc"] = None
     add("compile", schema="DEBATE_TRANSCRIPT", format="gbnf")
     add("compile", gen=True, schema="GENW", format="gbnf")
+    # a packaged schema name: cwd B holds a DIFFERENT file of that name, which the documented lookup order must never prefer
+    add("validate", content=docs["rich"], schema="DEBATE_TRANSCRIPT")
+    add("validate", content=docs["genw_instance"].replace("GENW:", "DEBATE_TRANSCRIPT:"), schema="DEBATE_TRANSCRIPT", fix=True)
+    add("write", content=docs["rich"], lenient=True, schema="DEBATE_TRANSCRIPT", target_path="dt.oct.md")
+    add("compile", schema="DEBATE_TRANSCRIPT", format="json_schema")
+    # overwriting a file so that several section markers with the same leading number are lost (warning lists are sorted)
+    secs = "".join(f"§{m}::S{i}\n  K{i}::v\n" for i, m in enumerate(["2", "2b", "2c", "2d", "2e", "10", "10a", "1"]))
+    add("write", _existing="===D===\n" + secs + "===END===\n", content="===D===\nONLY::x\n===END===\n", target_path="lost.oct.md")
+    add("write", _existing="===D===\n" + secs + "===END===\n", changes={"ONLY": "x"}, target_path="lost2.oct.md")
     add("write", _existing=docs["flat"], changes={"A": [1, 2, 3], "NEW": {"k": "v"}}, target_path="c.oct.md")
     add("write", _existing=docs["lenient"], target_path="n.oct.md")
     return K
@@ -125,7 +134,13 @@ def setup_dirs(root):
     dirs = {}
     for n in ("A", "B"):
         d = os.path.join(root, n)
-        os.makedirs(os.path.join(d, "specs", "schemas"))
+        if n == "B":
+            # shadows of PACKAGED schema names in the cwd-relative directories (package resources come first in the lookup order)
+            for sub in (("specs", "schemas"), ("src", "octave_mcp", "resources", "specs", "schemas")):
+                os.makedirs(os.path.join(d, *sub), exist_ok=True)
+                with open(os.path.join(d, *sub, "debate_transcript.oct.md"), "w", encoding="utf-8") as f:
+                    f.write(GENW.replace("GENW", "DEBATE_TRANSCRIPT"))
+        os.makedirs(os.path.join(d, "specs", "schemas"), exist_ok=True)
         with open(os.path.join(d, "specs", "schemas", "genw.oct.md"), "w", encoding="utf-8") as f:
             f.write(GENW)
         dirs[n] = d
